@@ -62,6 +62,7 @@ type Term struct {
 	name string   // var / uf name
 	p1   int
 	p2   int
+	h    uint64 // structural hash (independent of creation order: used to order commutative operands)
 }
 
 func (t *Term) IsConst() bool { return t.op == OpConst }
@@ -92,10 +93,11 @@ type TermStore struct {
 	True  *Term
 	False *Term
 	axioms map[int]*Term // term id -> fact that must accompany the term in every solver scope using it
+	canon  map[int]bool  // 256-bit terms known to be canonical field elements (< P) on every path that uses them
 }
 
 func NewTermStore() *TermStore {
-	s := &TermStore{tab: map[string]*Term{}, ufs: map[string]*UFDecl{}, axioms: map[int]*Term{}}
+	s := &TermStore{tab: map[string]*Term{}, ufs: map[string]*UFDecl{}, axioms: map[int]*Term{}, canon: map[int]bool{}}
 	s.True = s.mk(&Term{op: OpConst, w: 0, c: 1})
 	s.False = s.mk(&Term{op: OpConst, w: 0, c: 0})
 	return s
@@ -116,8 +118,36 @@ func (s *TermStore) mk(t *Term) *Term {
 	}
 	t.id = s.next
 	s.next++
+	// structural hash
+	h := uint64(1469598103934665603)
+	mix := func(v uint64) { h ^= v; h *= 1099511628211 }
+	mix(uint64(t.op))
+	mix(uint64(t.w))
+	mix(t.c)
+	mix(uint64(t.p1))
+	mix(uint64(t.p2))
+	for i := 0; i < len(t.name); i++ {
+		mix(uint64(t.name[i]))
+	}
+	if t.big != nil {
+		for _, wd := range t.big.Bits() {
+			mix(uint64(wd))
+		}
+	}
+	for _, a := range t.args {
+		mix(a.h)
+	}
+	t.h = h
 	s.tab[k] = t
 	return t
+}
+
+// before reports whether a should be ordered before b among commutative operands (structural order).
+func before(a, b *Term) bool {
+	if a.h != b.h {
+		return a.h < b.h
+	}
+	return a.id < b.id
 }
 
 func mask(w int) uint64 {
@@ -398,14 +428,59 @@ func (s *TermStore) Bin(op Op, a, b *Term) *Term {
 			return a
 		}
 	}
+	if op == OpOr {
+		// OR of bit-range-adjacent pieces (the binary.BigEndian.Uint64 idiom) is a concatenation
+		if r := s.orPieces(a, b); r != nil {
+			return r
+		}
+	}
 	// commutative normalisation
 	switch op {
 	case OpAdd, OpMul, OpAnd, OpOr, OpXor:
-		if a.id > b.id {
+		if before(b, a) {
 			a, b = b, a
 		}
 	}
 	return s.mk(&Term{op: op, w: w, args: []*Term{a, b}})
+}
+
+// asPiece recognises zext(p) << k (k constant, possibly 0): p occupies bits [k, k+p.w) of a W-bit word.
+func asPiece(t *Term) (inner *Term, shift int, ok bool) {
+	switch t.op {
+	case OpZExt:
+		return t.args[0], 0, true
+	case OpShl:
+		k := t.args[1]
+		if !k.IsConst() || k.w > 64 {
+			return nil, 0, false
+		}
+		in, sh, ok := asPiece(t.args[0])
+		if !ok || sh+int(k.c)+in.w > t.w {
+			return nil, 0, false
+		}
+		return in, sh + int(k.c), true
+	}
+	return nil, 0, false
+}
+
+func (s *TermStore) orPieces(a, b *Term) *Term {
+	pa, sa, oka := asPiece(a)
+	pb, sb, okb := asPiece(b)
+	if !oka || !okb {
+		return nil
+	}
+	if sa > sb {
+		pa, sa, pb, sb = pb, sb, pa, sa
+	}
+	if sa+pa.w != sb {
+		return nil
+	}
+	c := s.Concat(pb, pa)
+	z := s.ZExt(c, a.w)
+	if sa == 0 {
+		return z
+	}
+	return s.mk(&Term{op: OpShl, w: a.w, args: []*Term{z, s.Const(a.w, uint64(sa))}})
 }
 
 func (s *TermStore) Not(a *Term) *Term {
@@ -630,7 +705,7 @@ func (s *TermStore) Eq(a, b *Term) *Term {
 		}
 		return s.Eq(in, s.ConstBig(in.w, b.Big()))
 	}
-	if a.id > b.id {
+	if before(b, a) {
 		a, b = b, a
 	}
 	return s.mk(&Term{op: OpEq, w: 0, args: []*Term{a, b}})
@@ -709,7 +784,7 @@ func (s *TermStore) BAnd(a, b *Term) *Term {
 	if (a.op == OpBNot && a.args[0] == b) || (b.op == OpBNot && b.args[0] == a) {
 		return s.False
 	}
-	if a.id > b.id {
+	if before(b, a) {
 		a, b = b, a
 	}
 	return s.mk(&Term{op: OpBAnd, w: 0, args: []*Term{a, b}})
@@ -731,7 +806,7 @@ func (s *TermStore) BOr(a, b *Term) *Term {
 	if (a.op == OpBNot && a.args[0] == b) || (b.op == OpBNot && b.args[0] == a) {
 		return s.True
 	}
-	if a.id > b.id {
+	if before(b, a) {
 		a, b = b, a
 	}
 	return s.mk(&Term{op: OpBOr, w: 0, args: []*Term{a, b}})
